@@ -22,6 +22,8 @@ const (
 	vpDone
 	vpWritten
 	vpProcessed
+	vpBcastC
+	vpBcastP
 )
 
 func vpoint(obj interface{}, k int) {}
